@@ -1441,10 +1441,17 @@ fn append_to_commitlog(
         }
     }
 
-    if publish.payload.is_empty() {
-        datalog.remove_from_retained_publishes(topic.to_owned());
-    } else if publish.retain {
-        datalog.insert_to_retained_publishes(publish.clone(), properties.clone(), topic.to_owned());
+    if publish.retain {
+        // only a retained publish with an empty payload clears the retained message
+        if publish.payload.is_empty() {
+            datalog.remove_from_retained_publishes(topic.to_owned());
+        } else {
+            datalog.insert_to_retained_publishes(
+                publish.clone(),
+                properties.clone(),
+                topic.to_owned(),
+            );
+        }
     }
 
     // after recording retained message, we also send that message to existing subscribers
@@ -1512,10 +1519,17 @@ fn append_will_message(
         }
     }
 
-    if publish.payload.is_empty() {
-        datalog.remove_from_retained_publishes(topic.to_owned());
-    } else if publish.retain {
-        datalog.insert_to_retained_publishes(publish.clone(), properties.clone(), topic.to_owned());
+    if publish.retain {
+        // only a retained publish with an empty payload clears the retained message
+        if publish.payload.is_empty() {
+            datalog.remove_from_retained_publishes(topic.to_owned());
+        } else {
+            datalog.insert_to_retained_publishes(
+                publish.clone(),
+                properties.clone(),
+                topic.to_owned(),
+            );
+        }
     }
 
     // after recording retained message, we also send that message to existing subscribers
